@@ -28,12 +28,14 @@ use rpki::dep::bcder::Mode;
 use rpki::repository::aspa::Aspa;
 use rpki::repository::cert::{Cert, Overclaim, ResourceCert, TbsCert};
 use rpki::repository::crl::Crl;
+#[allow(deprecated)]
+use rpki::repository::crl::CrlStore;
 use rpki::repository::manifest::Manifest;
 use rpki::repository::resources::{
     AddressFamily, AsBlock, AsBlocks, AsResources, IpBlock, IpBlocks, IpResources, ResourceSet,
 };
 use rpki::repository::roa::Roa;
-use rpki::repository::rta::{MultiSignedObject, Rta, Validation};
+use rpki::repository::rta::{MultiSignedObject, Rta, RtaBuilder, Validation};
 use rpki::repository::sigobj::SignedObject;
 use rpki::repository::tal::{ReadError, Tal, TalInfo};
 use rpki::repository::x509::{Name, Serial, SignedData, Time};
@@ -726,6 +728,8 @@ fn walk_cert(w: &mut Walk, fx: &Fixed, c: &Cert, validate: bool) {
     }
     w.dbg(c.overclaim());
     w.see(c.overclaim().policy_id());
+    w.see(c.overclaim().ip_res_id());
+    w.see(c.overclaim().as_res_id());
     walk_ip_res(w, fx, c.v4_resources(), true);
     walk_ip_res(w, fx, c.v6_resources(), false);
     walk_as_res(w, fx, c.as_resources());
@@ -764,6 +768,7 @@ fn walk_cert(w: &mut Walk, fx: &Fixed, c: &Cert, validate: bool) {
     w.see(c.verify_ta_ref_at(true, t).is_ok());
     w.see(c.verify_router_at(&fx.ta, true, t).is_ok());
     w.see(c.validate_router_at(&fx.ta, false, t).is_ok());
+    w.see(c.validate_router(&fx.ta, true).is_ok());
     if validate {
         let info = fx.ta.tal().clone();
         if let Ok(rc) = c.clone().validate_ta_at(info.clone(), false, t) {
@@ -786,9 +791,14 @@ fn walk_cert(w: &mut Walk, fx: &Fixed, c: &Cert, validate: bool) {
             if let Ok(rc) = c.clone().verify_ca_at(issuer, true, t) {
                 walk_resource_cert(w, fx, &rc);
             }
+            if let Ok(rc) = c.clone().verify_ee_at(issuer, true, t) {
+                walk_resource_cert(w, fx, &rc);
+                w.see(rc.into_tal().name().len());
+            }
         }
     }
     w.bytes(c.to_captured().as_slice());
+    w.bytes(c.encode_ref().to_captured(Mode::Ber).as_slice());
     // the to-be-signed part re-encoded from its fields
     let tbs: &TbsCert = c.as_ref();
     w.bytes(tbs.encode_ref().to_captured(Mode::Der).as_slice());
@@ -814,7 +824,10 @@ fn walk_idcert(w: &mut Walk, fx: &Fixed, c: &IdCert) {
     w.see(c.validate_ee_at(&fx.key_rsa, t).is_ok());
     w.see(c.validate_ee_at(c.public_key(), t).is_ok());
     w.see(c.verify_validity(t).is_ok());
+    w.see(c.validate_ta().is_ok());
+    w.see(c.validate_ee(&fx.key_rsa).is_ok());
     w.see(c == c);
+    w.bytes(c.encode_ref().to_captured(Mode::Ber).as_slice());
     let cap = c.to_captured();
     w.see(c.to_bytes().len());
     recode(w, cap.as_slice(), |b| IdCert::decode(b).is_ok());
@@ -857,11 +870,34 @@ fn walk_crl(w: &mut Walk, fx: &Fixed, mut c: Crl) {
     }
     w.bytes(c.revoked_certs().encode_ref().to_captured(Mode::Der).as_slice());
     w.bytes(c.as_cert_list().encode_ref().to_captured(Mode::Der).as_slice());
+    for e in c.revoked_certs().iter().take(16) {
+        w.bytes(e.encode().to_captured(Mode::Der).as_slice());
+    }
+    w.bytes(c.encode_ref().to_captured(Mode::Ber).as_slice());
+    walk_crl_store(w, fx, &c, &probes);
     c.cache_serials();
     for s in &probes {
         w.see(c.contains(*s));
     }
     recode(w, c.to_captured().as_slice(), |b| Crl::decode(b).is_ok());
+}
+
+/// The (deprecated but public) store: lookups through a stored copy, with
+/// and without the serial cache.
+#[allow(deprecated)]
+fn walk_crl_store(w: &mut Walk, fx: &Fixed, c: &Crl, probes: &[Serial]) {
+    for cache in [false, true] {
+        let mut store = CrlStore::new();
+        if cache {
+            store.enable_serial_caching();
+        }
+        store.push(fx.base.clone(), c.clone());
+        if let Some(stored) = store.get(&fx.base) {
+            for s in probes {
+                w.see(stored.contains(*s));
+            }
+        }
+    }
 }
 
 //------------ signed objects ------------------------------------------------------
@@ -882,9 +918,12 @@ fn walk_sigobj(w: &mut Walk, fx: &Fixed, s: SignedObject, strict: bool) {
             Err(e) => w.show(e),
         }
         w.see(s.clone().process(issuer, false, |_| Ok(())).is_ok());
+        w.see(s.clone().validate(issuer, strict).is_ok());
     }
     let cap = s.encode_ref().to_captured(if strict { Mode::Der } else { Mode::Ber });
     recode(w, cap.as_slice(), |b| SignedObject::decode(b, strict).is_ok());
+    let ct = s.content_type().clone();
+    w.see(SignedObject::decode_if_type(cap.as_slice(), &ct, strict).is_ok());
 }
 
 fn walk_manifest(w: &mut Walk, fx: &Fixed, m: Manifest, strict: bool) {
@@ -904,6 +943,8 @@ fn walk_manifest(w: &mut Walk, fx: &Fixed, m: Manifest, strict: bool) {
             w.bytes(f.hash().as_ref());
             if n < 64 {
                 w.bytes(f.encode_ref().to_captured(Mode::Der).as_slice());
+                let (file, hash) = f.into_pair();
+                w.see(file.len() + hash.len());
             }
             n += 1;
         }
@@ -932,7 +973,9 @@ fn walk_manifest(w: &mut Walk, fx: &Fixed, m: Manifest, strict: bool) {
             }
             Err(e) => w.show(e),
         }
+        w.see(m.clone().validate(issuer, strict).is_ok());
     }
+    w.bytes(m.encode_ref().to_captured(Mode::Ber).as_slice());
     recode(w, m.to_captured().as_slice(), |b| Manifest::decode(b, strict).is_ok());
 }
 
@@ -978,6 +1021,8 @@ fn walk_roa(w: &mut Walk, fx: &Fixed, r: Roa, strict: bool) {
             Err(e) => w.show(e),
         }
     }
+    w.dbg(r.content().v4_addrs());
+    w.bytes(r.encode_ref().to_captured(Mode::Ber).as_slice());
     recode(w, r.to_captured().as_slice(), |b| Roa::decode(b, strict).is_ok());
 }
 
@@ -1012,6 +1057,7 @@ fn walk_aspa(w: &mut Walk, fx: &Fixed, a: Aspa, strict: bool) {
             Err(e) => w.show(e),
         }
     }
+    w.bytes(a.encode_ref().to_captured(Mode::Ber).as_slice());
     recode(w, a.to_captured().as_slice(), |b| Aspa::decode(b, strict).is_ok());
 }
 
@@ -1038,7 +1084,31 @@ fn walk_rta(w: &mut Walk, fx: &Fixed, r: Rta, strict: bool) {
             Err(e) => w.show(e),
         }
     }
-    recode(w, r.to_captured().as_slice(), |b| Rta::decode(b, strict).is_ok());
+    let cap = r.to_captured();
+    recode(w, cap.as_slice(), |b| Rta::decode(b, strict).is_ok());
+    // the CMS wrapper on its own
+    if let Ok(m) = MultiSignedObject::decode(cap.as_slice(), strict) {
+        w.bytes(m.content().to_bytes().as_ref());
+        w.see(m.content().iter().count());
+        w.see(m.decode_content(|cons| cons.skip_all()).is_ok());
+        w.bytes(m.encode_ref().to_captured(Mode::Ber).as_slice());
+    }
+    // certificates, CRLs and signer infos carried by the object (the
+    // builder is the public way to get at them)
+    let b = RtaBuilder::from_rta(r);
+    w.see(b.content().subject_keys().len());
+    for c in b.certificates().iter().take(8) {
+        walk_cert(w, fx, c, false);
+    }
+    for c in b.crls().iter().take(8) {
+        walk_crl(w, fx, c.clone());
+    }
+    for si in b.signer_infos().iter().take(64) {
+        walk_time(w, fx, si.signing_time());
+        w.bytes(si.encode_ref().to_captured(Mode::Der).as_slice());
+        w.dbg(si);
+    }
+    w.bytes(b.finalize().to_captured().as_slice());
 }
 
 //------------ TAL -----------------------------------------------------------------
@@ -1107,6 +1177,8 @@ fn walk_sigmsg(w: &mut Walk, fx: &Fixed, m: &SignedMessage) {
         w.see(ok);
     }
     w.dbg(m.content_type());
+    w.see(m.content().iter().count());
+    w.bytes(m.encode_ref().to_captured(Mode::Ber).as_slice());
     let cap = m.to_captured();
     recode(w, cap.as_slice(), |b| SignedMessage::decode(b, false).is_ok());
 }
